@@ -269,7 +269,10 @@ func init() {
 		d := x.shapeOfSlice(st, dims)
 		h := x.comp(st, "E$int$0", elemSort(SInt))
 		newTotal := sx("prod", sel(h, dims.base()), dims.off(), dims.slen())
-		oldTotal := sx("prod", sel(h, x.tShp(st, t)), "0", x.tRank(st, t))
+		// the element count of a tensor never changes after construction and always equals the
+		// product of its current shape (invariant of dense tensors)
+		oldTotal := x.tBlen(st, t)
+		x.assume(fr.curPC, eq(oldTotal, sx("prod", sel(h, x.tShp(st, t)), "0", x.tRank(st, t))))
 		sizeOK := x.define("reshape_sizeok", SBool, eq(newTotal, oldTotal))
 		nonneg := fmt.Sprintf("(forall ((i Int)) (=> (and (<= 0 i) (< i %s)) (>= %s 0)))", d.rank, d.dim("i"))
 		x.oblige(fr, "nopanic", "reshape-negative-dim", x.contractTags(fr), implies(sizeOK, nonneg), fr.curPC,
@@ -630,8 +633,8 @@ func init() {
 		dt := args[0].C[0]
 		shape := args[1]
 		d := x.shapeOfSlice(st, shape)
-		x.oblige(fr, "nopanic", "NewDense-dim-not-positive", x.contractTags(fr),
-			fmt.Sprintf("(forall ((i Int)) (=> (and (<= 0 i) (< i %s)) (>= %s 1)))", d.rank, d.dim("i")), fr.curPC, "tensor.NewDense panics on a non-positive extent", "")
+		x.oblige(fr, "nopanic", "NewDense-negative-dim", x.contractTags(fr),
+			fmt.Sprintf("(forall ((i Int)) (=> (and (<= 0 i) (< i %s)) (>= %s 0)))", d.rank, d.dim("i")), fr.curPC, "tensor.NewDense panics on a negative extent", "")
 		res := x.newTensorObj(fr, "newdense", d, dt, sx(x.ufn("k_zero", 1), d.rank))
 		x.ghostSet(st, "t$zeroed", res, "1")
 		return Val{T: i.Type(), C: []string{res}}
